@@ -60,12 +60,9 @@ func Judge(prop string, p *sdl.Program, cfg map[string]string, runs []*Obs) []Vi
 			return append(CheckRegistryTrace(o.Reg), w.CheckContinuation(out, o)...)
 		})
 	case "C05":
-		perRun(func(o *Obs) []Violation {
-			if !faultFree(o) {
-				return nil
-			}
-			return w.CheckLifecycle(out, o)
-		})
+		// (runs with an injected callback failure are judged too: once per creation attempt, and
+		// in lifecycle order, holds on every run)
+		perRun(func(o *Obs) []Violation { return w.CheckLifecycle(out, o) })
 	case "C09":
 		perRun(func(o *Obs) []Violation { return w.CheckCleanFailure(out, o) })
 	case "C12":
